@@ -47,6 +47,10 @@ func ParseGlyf(src []byte, locaOffsets []uint32) (Glyf, error) {
 		if start == end {
 			continue
 		}
+		// the offsets come unchecked from the 'loca' table
+		if start > end || uint64(end) > uint64(len(src)) {
+			return nil, fmt.Errorf("invalid glyph offsets [%d:%d] for glyf table of length %d", start, end, len(src))
+		}
 		out[i], _, err = ParseGlyph(src[start:end])
 		if err != nil {
 			return nil, err
